@@ -44,7 +44,7 @@ type vrReq struct {
 }
 
 type vrOp struct {
-	Op    string  `json:"op"` // mut | check | batch | tick | drop_perm | drop_tok
+	Op    string  `json:"op"` // mut | check | batch | tick | drop_perm | drop_tok | janitor
 	Kind  string  `json:"kind,omitempty"`
 	ID    int64   `json:"id,omitempty"`
 	A     int64   `json:"a,omitempty"` // parent / token
@@ -62,6 +62,7 @@ type vrCase struct {
 	Mode    string `json:"mode"` // direct | cluster
 	Enabled bool   `json:"enabled"`
 	TTL     int64  `json:"ttl"`
+	Max     int    `json:"max"` // MaxCacheSize of the long-lived manager (0: practically unbounded)
 	T0      int64  `json:"t0"`
 	Ops     []vrOp `json:"ops"`
 }
@@ -313,13 +314,16 @@ func (p *vrProposer) Propose(ctx context.Context, cmdType uint8, payload []byte,
 }
 
 // ---- one case -------------------------------------------------------------------------------
-func vrNewRM(am *AuthManager, c *vrCase) *RBACManager {
+func vrNewRM(am *AuthManager, c *vrCase, maxSize int) *RBACManager {
 	feats := []string{}
 	if c.Enabled {
 		feats = append(feats, license.FeatureRBAC)
 	}
+	if maxSize <= 0 {
+		maxSize = 1 << 20
+	}
 	return NewRBACManager(&RBACManagerConfig{DB: am.GetDB(), LicenseClient: license.NewVerifClient(feats), Logger: zerolog.Nop(),
-		CacheTTL: time.Duration(c.TTL), MaxCacheSize: 1 << 20})
+		CacheTTL: time.Duration(c.TTL), MaxCacheSize: maxSize})
 }
 
 func vrToReq(r *vrReq) *PermissionCheckRequest {
@@ -349,7 +353,7 @@ func vrRunCase(am *AuthManager, c *vrCase) (out vrCaseOut) {
 		return
 	}
 	am.InvalidateCache()
-	rm := vrNewRM(am, c)
+	rm := vrNewRM(am, c, c.Max)
 	defer rm.Close()
 	if c.Mode == "cluster" {
 		p := &vrProposer{am: am, rm: rm}
@@ -360,7 +364,7 @@ func vrRunCase(am *AuthManager, c *vrCase) (out vrCaseOut) {
 	ctx := context.Background()
 	nOrgName, nTeamName, nTokName := 0, 0, 0
 	fresh := func(f func(*RBACManager)) {
-		fm := vrNewRM(am, c)
+		fm := vrNewRM(am, c, 0)
 		f(fm)
 		fm.Close()
 	}
@@ -389,6 +393,10 @@ func vrRunCase(am *AuthManager, c *vrCase) (out vrCaseOut) {
 				delete(rm.permCache, k)
 			}
 			rm.permCacheMu.Unlock()
+			out.Outs = append(out.Outs, vrOut{Kind: "none"})
+		case "janitor":
+			// what the once-a-minute cleanup loop runs, at the controlled clock's time
+			rm.cleanupExpiredCache()
 			out.Outs = append(out.Outs, vrOut{Kind: "none"})
 		case "drop_tok":
 			rm.tokenCacheMu.Lock()
